@@ -252,7 +252,8 @@ def _defrag_row(ex, st, k):
         goal = z3.And(goal, row.length() == 128,
                       z3.ForAll([j], z3.Implies(z3.And(0 <= j, j < 128), eq(cj, want))))
         # the row is loaded from the OLD bundle and (if anything was found) stored into the NEW one
-        goal = z3.And(goal, z3.BoolVal(loads[0].recv is not None and all(s.recv is not None and not s.recv.t.eq(loads[0].recv.t) for s in stores)))
+        goal = z3.And(goal, z3.BoolVal(loads[0].recv is not None and all(s.recv is not None and not s.recv.t.eq(loads[0].recv.t) for s in stores)
+                                       and loads[0].recv.t.eq(st.env['b'].t) and all(s.recv.t.eq(st.env['defb'].t) for s in stores)))
         for s in stores:
             arg = s.args[0]
             goal = z3.And(goal, z3.BoolVal(isinstance(arg, VSeq) and getattr(arg, 'keep', None) is not None and len(stores) == 1))
@@ -307,9 +308,49 @@ def _defrag_swap(ex, st, k):
     for j, r in rm:
         # only the old bundle and its index file are ever removed
         goal = z3.And(goal, z3.Or(eq(r.args[0], bf), eq(r.args[0], sibling)))
+    # the bundle that is read is THIS file; the new one is written next to the cache with the same offset
+    bo = [e for e in evs_ if e.name == 'bundle_offset']
+    rs = [e for e in evs_ if e.name == 'rstrip']
+    def sm(a, b):
+        return a is b or (hasattr(a, 't') and hasattr(b, 't') and a.t.eq(b.t))
+    def base_of_bf(v):
+        t = getattr(v, 't', None)
+        return t is not None and z3.is_app(t) and t.decl().name().startswith('str_rstrip') and t.arg(0).eq(bf.t) \
+            and z3.is_string_value(t.arg(1)) and t.arg(1).as_string() == '.bundle'
+    okb = len(bo) == 1 and len(mk) >= 1 and len(bo[0].args) == 1 and sm(bo[0].args[0], bf) \
+        and len(mk[0].args) == 2 and base_of_bf(mk[0].args[0]) and sm(mk[0].args[1], bo[0].result) \
+        and sm(st.env.get('b'), mk[0].result)
+    g_b = z3.BoolVal(bool(okb))
+    if okb and len(mk) == 2:
+        okn = len(mk[1].args) == 2 and sm(mk[1].args[0], st.env.get('tmp_bundle')) and sm(mk[1].args[1], bo[0].result) \
+            and sm(st.env.get('defb'), mk[1].result)
+        g_b = z3.And(g_b, z3.BoolVal(bool(okn)))
+    if 'tmp_bundle' in st.env:
+        from pyvc.builtins import os_path_join
+        cd = ex.opaque_field(st, st.env['cache'], 'cache_dir')
+        want = os_path_join(ex, st, [cd, VStr('tmp_defrag')], {}, None)[0][1]
+        g_b = z3.And(g_b, st.env['tmp_bundle'].t == want.t)
+    yield ('old_and_new_bundle_identified', g_b,
+           'the tiles are read from the bundle of THIS file (its base name, its offset) and written to a bundle object created '
+           'for the temporary name with the same offset')
     yield ('defrag_swaps_new_bundle_into_place', goal,
            'skip / dry run: no file operation; otherwise os.remove(bundle_file) first and then, if tiles were copied, '
            "os.rename(tmp_bundle + '.bundle', bundle_file)")
+
+
+def _defrag_scans_the_cache(ex, st, post, result):
+    import z3
+    from pyvc import tracelib as T
+    from pyvc.values import VStr
+    from pyvc.builtins import os_path_join
+    gl = [e for i, e in T.evs(st, 'glob')]
+    ok = len(gl) == 1 and len(gl[0].args) == 1
+    g = z3.BoolVal(bool(ok))
+    if ok:
+        cd = ex.opaque_field_at(st, gl[0], post.env['cache'], 'cache_dir')
+        want = os_path_join(ex, st, [cd, VStr('L??'), VStr('R????C????.bundle')], {}, None)[0][1]
+        g = z3.And(g, gl[0].args[0].t == want.t)
+    yield ('bundles_of_this_cache_only', g, "the bundles worked on are those matching <cache_dir>/L??/R????C????.bundle")
 
 
 contract('mapproxy.script.defrag:defrag_compact_cache', props=['C19'],
@@ -321,7 +362,10 @@ contract('mapproxy.script.defrag:defrag_compact_cache', props=['C19'],
                       'load_tiles': {}, 'store_tiles': {}, 'exists': {'returns': 'bool', 'pure': True}, 'rstrip': {'pure': True}},
          raises={'ZeroDivisionError': True},
          loops={0: dict(inv=[], types={'stored_tiles': 'bool'}, body_trace=[_defrag_swap]),
-                1: dict(inv=['len(_seq) == 128'], types={'stored_tiles': 'bool', 'tiles': 'opaque'}, body_trace=[_defrag_row])})
+                # (nothing counts as copied before the first row was looked at)
+                1: dict(inv=['len(_seq) == 128', 'implies(_k == 0, not stored_tiles)'],
+                        types={'stored_tiles': 'bool', 'tiles': 'opaque'}, body_trace=[_defrag_row])},
+         trace=[_defrag_scans_the_cache])
 
 
 # ---- v1 bundle (.bundlx index + .bundle data): which slot is read / written for which address -------------------------------
